@@ -43,7 +43,9 @@ LEVEL_NOTE = 'trusted: reference model, the recorded routing table (fixtures/rou
 HERE = os.path.dirname(os.path.dirname(os.path.dirname(os.path.abspath(__file__))))
 FIXTURE = os.path.join(HERE, 'fixtures', 'routing.json')
 KEYS = ['a', 'b', 'ab', {'b': '61'}, 2, {'f': '2.5'}, {'f': '-7.25'}, 11, {'i': str(2 ** 63 - 1)}, {'i': str(2 ** 63)}, None, True,
-        {'t': [1, 'x']}, '', {'b': ''}, 'é ', 'k1', 'k2', 'k3', 100, 101]
+        {'t': [1, 'x']}, '', {'b': ''}, 'é ', 'k1', 'k2', 'k3', 100, 101,
+        # equal as Python objects, different as cache keys (their pickles differ): each is routed by its own bytes
+        {'t': ['job', 1]}, {'t': ['job', {'f': '1.0'}]}, {'t': ['job', True]}]
 PAIRS = [(1, {'f': '1.0'}), (0, {'f': '-0.0'}), (0, {'f': '0.0'}), (-1, {'f': '-1.0'}), (2 ** 53, {'f': repr(float(2 ** 53))}), (7, {'f': '7.0'})]
 FS_KEYS = [{'fs': ['a', 'b', 'c']}, {'t': ['a', {'fs': ['x', 'y']}]}, {'fs': [{'b': '61'}, {'b': '62'}, {'b': '63'}]}]
 
